@@ -25,6 +25,9 @@ logging.getLogger("rtctools").setLevel(logging.CRITICAL)
 
 
 def names(inst):
+    if inst.get("names"):
+        nm = inst["names"]
+        return list(nm["xs"]), list(nm["al"]), list(nm["us"])
     xs = ["x%d" % i for i in range(inst["ns"])]
     al = ["a%d" % i for i in range(inst["na"])]
     us = ["u%d" % i for i in range(inst["nc"])]
